@@ -145,6 +145,13 @@ func (n *constructorNode) Call(c containerStore) (err error) {
 		return nil
 	}
 
+	// The constructor's dependencies are resolved as seen from c, which is
+	// not necessarily the Scope whose graph the caller verified: an exported
+	// constructor is built in the Scope it was provided to.
+	if err := c.verifyAcyclic(); err != nil {
+		return err
+	}
+
 	if err := shallowCheckDependencies(c, n.paramList); err != nil {
 		return errMissingDependencies{
 			Func:   n.location,
